@@ -61,11 +61,31 @@ Definition parse_N (l : list N) : option N :=
 (* -?[0-9]+ *)
 Definition parse_Z (l : list N) : option Z :=
   match l with
-  | 45 :: r => match parse_N r with
-               | Some n => Some (- Z.of_N n)%Z
-               | None => None
-               end
-  | _ => match parse_N l with Some n => Some (Z.of_N n) | None => None end
+  | b :: r =>
+      if b =? 45 then
+        match parse_N r with
+        | Some n => Some (- Z.of_N n)%Z
+        | None => None
+        end
+      else match parse_N l with Some n => Some (Z.of_N n) | None => None end
+  | [] => None
+  end.
+
+(* the rest of l after the prefix pre, if l starts with it *)
+Fixpoint strip_prefix (pre l : list N) : option (list N) :=
+  match pre with
+  | [] => Some l
+  | a :: pre' => match l with
+                 | b :: l' => if a =? b then strip_prefix pre' l' else None
+                 | [] => None
+                 end
+  end.
+
+(* l without its last element, if that element is c *)
+Definition strip_last (c : N) (l : list N) : option (list N) :=
+  match rev l with
+  | b :: r => if b =? c then Some (rev r) else None
+  | [] => None
   end.
 
 (* ---------- lines ---------- *)
@@ -120,42 +140,37 @@ Fixpoint unescape (fuel : nat) (s : list N) : option (list N) :=
   | S f =>
       match s with
       | [] => Some []
-      | 92 :: r =>
-          match r with
-          | [] => None
-          | c :: r' =>
-              let k x := match unescape f r' with Some t => Some (x :: t) | None => None end in
-              if c =? 92 then k 92
-              else if c =? 39 then k 39
-              else if c =? 34 then k 34
-              else if c =? 110 then k 10
-              else if c =? 114 then k 13
-              else if c =? 116 then k 9
-              else if c =? 120 then
-                match r' with
-                | h1 :: h2 :: r'' =>
-                    match hexval h1, hexval h2, unescape f r'' with
-                    | Some a, Some b, Some t => Some (16 * a + b :: t)
-                    | _, _, _ => None
-                    end
-                | _ => None
-                end
-              else None
-          end
-      | b :: r => match unescape f r with Some t => Some (b :: t) | None => None end
+      | b :: r =>
+          if b =? 92 then
+            match r with
+            | [] => None
+            | c :: r' =>
+                let k x := match unescape f r' with Some t => Some (x :: t) | None => None end in
+                if c =? 92 then k 92
+                else if c =? 39 then k 39
+                else if c =? 34 then k 34
+                else if c =? 110 then k 10
+                else if c =? 114 then k 13
+                else if c =? 116 then k 9
+                else if c =? 120 then
+                  match r' with
+                  | h1 :: h2 :: r'' =>
+                      match hexval h1, hexval h2, unescape f r'' with
+                      | Some a, Some b, Some t => Some (16 * a + b :: t)
+                      | _, _, _ => None
+                      end
+                  | _ => None
+                  end
+                else None
+            end
+          else match unescape f r with Some t => Some (b :: t) | None => None end
       end
   end.
 
 (* the line must start and end with the same quote character (39 or 34) *)
 Definition unquote (ln : list N) : option (list N) :=
   match ln with
-  | q :: r =>
-      if (q =? 39) || (q =? 34) then
-        match rev r with
-        | q' :: body_rev => if q' =? q then Some (rev body_rev) else None
-        | [] => None
-        end
-      else None
+  | q :: r => if (q =? 39) || (q =? 34) then strip_last q r else None
   | [] => None
   end.
 
@@ -247,14 +262,15 @@ Definition mantissa_ok (l : list N) : bool :=
   | None => nonempty_digits l
   end.
 
+Definition exponent_ok (e : list N) : bool :=
+  match e with
+  | b :: d => if (b =? 43) || (b =? 45) then nonempty_digits d else nonempty_digits e
+  | [] => false
+  end.
+
 Definition unsigned_float_ok (l : list N) : bool :=
   match split_at 101 l with
-  | Some (m, e) =>
-      mantissa_ok m &&
-      match e with
-      | 43 :: d | 45 :: d => nonempty_digits d
-      | _ => nonempty_digits e
-      end
+  | Some (m, e) => mantissa_ok m && exponent_ok e
   | None => mantissa_ok l
   end.
 
@@ -265,8 +281,8 @@ Definition float_text_ok (l : list N) : bool :=
   list_eqb l [78; 97; 78] || list_eqb l [110; 97; 110]
   || list_eqb l [105; 110; 102] || list_eqb l [45; 105; 110; 102]
   || match l with
-     | 45 :: r => unsigned_float_ok r
-     | _ => unsigned_float_ok l
+     | b :: r => if b =? 45 then unsigned_float_ok r else unsigned_float_ok l
+     | [] => false
      end.
 
 (* ---------- encode: what the emitters append for a token ---------- *)
@@ -344,7 +360,7 @@ Definition read_arg (r : argreader) (l : list N) : option (arg * list N) :=
   | rd_decimalnl_long =>
       match read_line l with
       | Some (ln, rest) =>
-          let body := match rev ln with 76 :: b => rev b | _ => ln end in
+          let body := match strip_last 76 ln with Some b => b | None => ln end in
           match parse_Z body with Some z => Some (AZ z, rest) | None => None end
       | None => None
       end
